@@ -202,6 +202,9 @@ func addPreemptions(sc *Scenario, yields map[int]int, windows, atomics map[int][
 	if len(atomics) > 0 && r.chance(0.35) {
 		kind = 4
 	}
+	if len(lastArgs) > 0 && r.chance(0.4) {
+		kind = 5
+	}
 	nt := len(sc.Tasks)
 	if nt < 2 {
 		return
@@ -243,6 +246,86 @@ func addPreemptions(sc *Scenario, yields map[int]int, windows, atomics map[int][
 		}
 		if len(sc.Preempt) > 400 {
 			sc.Preempt = sc.Preempt[:400]
+		}
+	case 5: // lock-free code: stall one task between reading the operands of an
+		// atomic operation and the operation itself, let the others complete a few
+		// whole lock-free operations (bursts of atomic statements) in turn, resume it
+		type pt struct{ op, k int }
+		flat := func(t int, m map[int][]int) []pt {
+			var out []pt
+			for _, op := range sc.Tasks[t].Ops {
+				ks := append([]int(nil), m[op.ID]...)
+				sort.Ints(ks)
+				last := 0
+				for _, k := range ks {
+					if k >= 1 && k != last {
+						out = append(out, pt{op.ID, k})
+						last = k
+					}
+				}
+			}
+			return out
+		}
+		victim := r.intn(nt)
+		vp := flat(victim, lastArgs)
+		if len(vp) == 0 {
+			for t := 0; t < nt && len(vp) == 0; t++ {
+				victim = t
+				vp = flat(t, lastArgs)
+			}
+			if len(vp) == 0 {
+				return
+			}
+		}
+		stall := vp[r.intn(len(vp))]
+		if r.chance(0.5) {
+			stall = vp[r.intn(1+len(vp)/4)] // early: the others are still at their start
+		}
+		sc.Start = victim
+		// bursts of the other tasks: end points of runs of atomic statements
+		bursts := make([][]pt, nt)
+		for t := 0; t < nt; t++ {
+			a := flat(t, atomics)
+			for i, p := range a {
+				if i+1 == len(a) || a[i+1].op != p.op || a[i+1].k-p.k > 12 {
+					bursts[t] = append(bursts[t], p)
+				}
+			}
+		}
+		cursor := make([]int, nt)
+		hops := r.rangeI(2, 5)
+		curT := other(victim)
+		sc.Preempt = append(sc.Preempt, verifrt.Preempt{Task: victim, Op: stall.op, K: stall.k, Next: curT})
+		for h := 0; h < hops; h++ {
+			nextT := victim
+			if h+1 < hops {
+				for tries := 0; tries < 4; tries++ {
+					nextT = r.intn(nt)
+					if nextT != victim && (nextT != curT || nt == 2) {
+						break
+					}
+				}
+				if nextT == victim {
+					nextT = other(victim)
+				}
+			}
+			c := cursor[curT] + r.pick(1, 1, 1, 2, 3) - 1
+			if c >= len(bursts[curT]) {
+				// the task runs to its end; the scheduler then continues with another one
+				cursor[curT] = len(bursts[curT])
+				curT = nextT
+				continue
+			}
+			cursor[curT] = c + 1
+			b := bursts[curT][c]
+			k := b.k + r.pick(0, 1, 1, 2, 3)
+			if y := yields[b.op]; k > y {
+				k = y
+			}
+			if k >= 1 {
+				sc.Preempt = append(sc.Preempt, verifrt.Preempt{Task: curT, Op: b.op, K: k, Next: nextT})
+			}
+			curT = nextT
 		}
 	case 4: // lock-free code: dense ping-pong, a switch at every atomic statement / lock operation with probability q
 		q := []float64{0.15, 0.3, 0.5}[r.intn(3)]
@@ -594,12 +677,22 @@ var lastWindows map[int][]int
 // lastAtomic: per op, yield indices next to sync/atomic statements and lock operations.
 var lastAtomic map[int][]int
 
+// lastArgs: per op, yield indices between the evaluation of the value operands
+// of a sync/atomic call and the call itself.
+var lastArgs map[int][]int
+
 // refC18Windows is refC18 plus recording of pool windows per op.
 func refC18Windows(sc *Scenario) ([][]Result, *Outcome) {
 	lastWindows = map[int][]int{}
 	verifrt.PoolTrace = func(get bool, task, op, k int) {
 		if op >= 0 {
 			lastWindows[op] = append(lastWindows[op], k)
+		}
+	}
+	lastArgs = map[int][]int{}
+	verifrt.ArgTrace = func(task, op, k int) {
+		if op >= 0 {
+			lastArgs[op] = append(lastArgs[op], k)
 		}
 	}
 	lastAtomic = map[int][]int{}
@@ -609,6 +702,6 @@ func refC18Windows(sc *Scenario) ([][]Result, *Outcome) {
 			lastAtomic[op] = append(lastAtomic[op], k, k+1)
 		}
 	}
-	defer func() { verifrt.PoolTrace = nil; verifrt.InterestTrace = nil }()
+	defer func() { verifrt.PoolTrace = nil; verifrt.InterestTrace = nil; verifrt.ArgTrace = nil }()
 	return refC18(sc)
 }
